@@ -146,3 +146,51 @@ def family_ctor_fault(tier, seed, n=None):
                tree_probe("o3", info)]
         out.append({"id": "CF/%d" % t, "world": world, "ops": ops, "tags": []})
     return out
+
+
+# ------------------------------------------------------------------------------------------
+# sibling sub-objects of one class and object lists with cross-level references (C08)
+# ------------------------------------------------------------------------------------------
+def world_siblings(rnd):
+    sub = {"base": "", "fields": [fld("x", 2, False), fld("z", 1, False, rand=rnd.random() < 0.5, init=1)],
+           "blocks": [{"name": "sc", "dynamic": False, "body": [E(B("ne", F("x"), lit(rnd.randrange(4))))]}]}
+    r = [rnd.random() < 0.8 for _ in range(3)]
+    rels = ["lt", "le", "ne", "gt"]
+    top_fields = [{"name": "s1", "kind": "obj", "cls": "Sub", "rand": r[0]},
+                  {"name": "s2", "kind": "obj", "cls": "Sub", "rand": r[1]},
+                  {"name": "s3", "kind": "obj", "cls": "Sub", "rand": r[2]},
+                  {"name": "ol", "kind": "objlist", "cls": "Sub", "n": 2, "rand": rnd.random() < 0.8},
+                  fld("y", 2, False)]
+    blocks = [{"name": "t1", "dynamic": False, "body": [E(B(rnd.choice(rels), F("s1.x"), F("s2.x")))]},
+              {"name": "t2", "dynamic": False, "body": [E(B(rnd.choice(rels), F("s2.x"), F("s3.x")))]},
+              {"name": "t3", "dynamic": False, "body": [E(B(rnd.choice(rels), F("ol[0].x"), F("ol[1].x")))]},
+              {"name": "t4", "dynamic": False, "body": [E(B(rnd.choice(["eq", "ne", "le"]), F("y"), F(rnd.choice(["s3.x", "ol[1].x", "s1.x"]))))]}]
+    if rnd.random() < 0.5:
+        blocks.append({"name": "t5", "dynamic": False,
+                       "body": [{"k": "foreach", "l": "ol", "v": "e", "it": True, "idx": False,
+                                 "body": [E(B(rnd.choice(["ne", "le"]), {"k": "it", "v": "e", "p": "x"}, F("s2.x")))]}]})
+    return {"classes": {"Sub": sub, "Top": {"base": "", "fields": top_fields, "blocks": blocks}},
+            "population": [{"id": "o1", "cls": "Top"}, {"id": "o2", "cls": "Top"}]}
+
+
+def family_siblings(tier, seed, n=None):
+    out = []
+    n = n or (20 if tier == "quick" else 300)
+    for t in range(n):
+        core = t < n // 2
+        rnd = random.Random((808 if core else 8100 + seed) * 100003 + t)
+        world = world_siblings(rnd)
+        paths = ["o1.s1.x", "o1.s2.x", "o1.s3.x", "o1.ol[0].x", "o1.ol[1].x", "o1.y"]      # 12 bits: sampled to cap
+        allp = paths + ["o1.s1.z", "o1.s2.z", "o1.s3.z", "o1.ol[0].z", "o1.ol[1].z"]
+        ops = [{"op": "construct", "o": "o1"}, {"op": "construct", "o": "o2"}]
+        for i in range(rnd.randint(2, 4)):
+            if rnd.random() < 0.5:
+                p = rnd.choice(["s1.x", "s2.x", "s3.x", "ol[0].x", "ol[1].x"])
+                ops.append({"op": "set", "p": "o1." + p, "v": bits(rnd.randrange(4), 2)})
+            ops.append({"op": "call", "call": rnd.choice([mcall("o1"), mcall("o2"),
+                                                          {"kind": "free", "roots": ["o1.s2"], "owner": "", "inline": []},
+                                                          wcall([E(B("ne", F("s1.x"), F("ol[0].x")))], "o1")])})
+            ops.append({"op": "probe", "call": wcall([], "o1"), "paths": allp, "mode": "around", "nsol": 4, "cap": 200})
+        ops.append({"op": "probe", "call": wcall([], "o1"), "paths": allp, "cap": 600})
+        out.append({"id": "SB/%s/%d" % ("core" if core else "s%d" % seed, t), "world": world, "ops": ops, "tags": []})
+    return out
